@@ -19,8 +19,8 @@ def cases(tier, seed, ctx=None):
     for _ in range(n):
         regs = []
         for _ in range(rng.range(0, 5)):
-            kind = rng.choice([0, 0, 0, 0, 1, 2])
-            regs.append([rng.choice(NAMES), kind, rng.range(0, 5), 1 if rng.chance(2, 3) else 0, rng.range(0, 3)])
+            kind = rng.choice([0, 0, 0, 0, 0, 1, 2, 3, 4])
+            regs.append([rng.choice(NAMES), kind, rng.range(0, 5), 1 if rng.chance(2, 3) else 0, rng.range(0, 3) + (4 if rng.chance(1, 6) else 0)])      # form + 4: registered again after every operation
         name = rng.choice(NAMES + [r[0] for r in regs] * 2) if rng.chance(9, 10) else b"nosuch"
         body = rng.bytes(rng.choice([0, 0, 1, 3, 5, 12] + ([20000] if tier != "quick" else [])))
         with_cl = rng.chance(5, 6)
@@ -59,7 +59,7 @@ def cases(tier, seed, ctx=None):
     for _ in range(60 if tier == "quick" else 800):
         regs = []
         for _ in range(rng.range(1, 5)):
-            regs.append([rng.choice(NAMES), rng.choice([0, 0, 0, 1, 2]), rng.range(0, 5), 1 if rng.chance(2, 3) else 0, rng.range(0, 3)])
+            regs.append([rng.choice(NAMES), rng.choice([0, 0, 0, 1, 2, 3, 4]), rng.range(0, 5), 1 if rng.chance(2, 3) else 0, rng.range(0, 3)])
         conns, metas = [], []
         for _ in range(rng.range(2, 5)):
             name = rng.choice(NAMES + [r[0] for r in regs] * 2)
